@@ -3,7 +3,7 @@ import re
 
 from ..facts import Broken, strip, const, walk, walk_eval, show, macro_name
 from ..interp import Interp, path, av_const, NONZERO, AV
-from .. import cfgq, own
+from .. import cfgq, own, memrules
 from ..codesummary import CodeSummary
 from . import c05, c16, c20
 
@@ -206,3 +206,9 @@ def run(prog, chk):
     r4 = chk.rule("R4-no-open-transaction-on-failure", "no exit - including those taken when sqlite3_prepare_v2, BEGIN or an "
                   "allocation fails - leaves a transaction open (C05 R1 over all exits)", floor=7)
     c05.check_balance(prog, chk, r4)
+
+    r5 = chk.rule("R5-no-dangling-field-after-failure", "a function that has stored `v->kind = K` does not, on a later failure, "
+                  "release K's pointer fields of v and return with the kind still set (the caller's clean-up would free them again)",
+                  primary=False, floor=5)
+    if memrules.dangling_under_kind(prog, r5) < 5:
+        raise Broken("kind stores vanished")
